@@ -72,6 +72,29 @@ def scan_function(q: str, fn: ast.FunctionDef, file: str, rid: str) -> List[R.In
                                           f"{short} keeps a value computed from the class in '{unparse(t)}' and reads it back by plain "
                                           f"attribute lookup: a subclass inherits the value computed for whichever class ran first, so "
                                           f"the result depends on the order of earlier calls", construct=f"{short}: {unparse(t)} = {unparse(val)[:60]}"))
+        if isinstance(n, ast.Assign) and len(n.targets) == 1 and isinstance(n.targets[0], ast.Subscript) and \
+                isinstance(n.targets[0].value, ast.Attribute) and isinstance(n.targets[0].value.value, ast.Name) and \
+                n.targets[0].value.value.id == "self" and first == "self":
+            attr = n.targets[0].value.attr
+            looked_up = any((isinstance(x, ast.Compare) and any(isinstance(o, (ast.In, ast.NotIn)) for o in x.ops) and
+                             any(unparse(c) == f"self.{attr}" for c in x.comparators)) or
+                            (isinstance(x, ast.Call) and isinstance(x.func, ast.Attribute) and x.func.attr == "get" and
+                             unparse(x.func.value) == f"self.{attr}") for x in ast.walk(fn))
+            if looked_up:
+                key = n.targets[0].slice
+                if isinstance(key, ast.Name):
+                    ds = [a.value for a in ast.walk(fn) if isinstance(a, ast.Assign) and len(a.targets) == 1 and
+                          isinstance(a.targets[0], ast.Name) and a.targets[0].id == key.id]
+                    key = ds[0] if len(ds) == 1 else key
+                in_key = {x.id for x in ast.walk(key) if isinstance(x, ast.Name)}
+                params = [a.arg for a in fn.args.args + fn.args.kwonlyargs if a.arg != "self"]
+                used = {x.id for x in ast.walk(fn) if isinstance(x, ast.Name) and isinstance(x.ctx, ast.Load)}
+                missing = [p_ for p_ in params if p_ in used and p_ not in in_key]
+                if missing:
+                    out.append(R.viol(rid, f"{short}:memo-key", file, n.lineno,
+                                      f"{short} keeps its results in self.{attr} under the key '{unparse(key)[:60]}', which leaves out the "
+                                      f"parameter(s) {missing}: a call that differs only in {missing[0]} gets the result computed for the earlier "
+                                      f"call", construct=f"{short}: self.{attr}[{unparse(key)[:50]}] omits {missing}"))
         elif isinstance(n, ast.Global):
             stores = {x.id for x in ast.walk(fn) if isinstance(x, ast.Name) and isinstance(x.ctx, ast.Store)}
             hit = sorted(set(n.names) & stores)
